@@ -5,6 +5,7 @@ import (
 	"os"
 	"os/exec"
 	"path/filepath"
+	"runtime"
 	"strconv"
 	"strings"
 	"time"
@@ -110,4 +111,15 @@ func DeadenLock(repoPath string) {
 	}
 	out := append(append(append([]byte(nil), b[:start]...), []byte(strconv.Itoa(dead))...), b[end:]...)
 	_ = os.WriteFile(p, out, 0644)
+}
+
+// goid is the id of the calling goroutine, as the runtime prints it.
+func goid() string {
+	var buf [64]byte
+	n := runtime.Stack(buf[:], false)
+	f := bytes.Fields(buf[:n])
+	if len(f) > 1 {
+		return string(f[1])
+	}
+	return ""
 }
